@@ -197,38 +197,51 @@ class Program(object):
         # type: () -> str
         """ Returns a string with commands formatted in the MPilot command file syntax. """
 
-        def serialize_value(value, argument, command):
-            # type: (Any, Argument, Command) -> str
+        def is_reference(param):
+            # type: (Any) -> bool
 
-            param = command.inputs[argument.name]
+            while isinstance(param, ListParameter):
+                param = param.value_type
+            return isinstance(param, ResultParameter)
 
-            if isinstance(param, ResultParameter) or (
-                isinstance(param, ListParameter)
-                and isinstance(param.value_type, ResultParameter)
-            ):
-                return str(value)
+        def serialize_string(value):
+            # type: (str) -> str
+
+            for char, escape in (("\\", "\\\\"), ('"', '\\"'), ("\n", "\\n"), ("\r", "\\r"), ("\t", "\\t")):
+                value = value.replace(char, escape)
+            return '"{}"'.format(value)
+
+        def serialize_value(value, reference):
+            # type: (Any, bool) -> str
+
+            if isinstance(value, Argument):  # Nested lists are wrapped in list arguments
+                value = value.value
+            if isinstance(value, (list, tuple)):
+                return "[{}]".format(
+                    ", ".join(serialize_value(x, reference) for x in value)
+                )
+            if isinstance(value, Command):
+                return value.result_name
             if isinstance(value, six.string_types):
-                return '"{}"'.format(value)
-            else:
-                return str(value)
+                return value if reference else serialize_string(value)
+            return str(value)
 
         def serialize_argument(argument, command):
             # type: (Argument, Command) -> str
 
-            if isinstance(argument, ListArgument):
-                return "[{}]".format(
-                    ", ".join(
-                        serialize_value(x, argument, command) for x in argument.value
-                    )
-                )
-            elif isinstance(argument.value, dict):
+            if isinstance(argument.value, dict):
                 return "[\n{}\n    ]".format(
                     ",\n".join(
-                        '        "{}": "{}"'.format(key, value)
+                        "        {}: {}".format(
+                            serialize_string(six.text_type(key)),
+                            serialize_string(six.text_type(value)),
+                        )
                         for key, value in argument.value.items()
                     )
                 )
-            return serialize_value(argument.value, argument, command)
+            return serialize_value(
+                argument.value, is_reference(command.inputs.get(argument.name))
+            )
 
         def serialize_command(command):
             # type: (Command) -> str
